@@ -58,6 +58,8 @@ class FakeTransport(asyncio.Transport):
     def set_protocol(self, protocol):
         self._protocol = protocol
 
+    kernel_reset = False      # set by the simulated peer at the instant it resets the connection (before the loop tells the protocol)
+
     def get_protocol(self):
         return self._protocol
 
@@ -117,6 +119,9 @@ class FakeTransport(asyncio.Transport):
         if self._closing or self._eof:
             return
         self._eof = True
+        if self.kernel_reset and not self._buffer:
+            # the peer's RST has reached the kernel but the event loop has not polled the socket yet: shutdown(SHUT_WR) fails (asyncio lets it out)
+            raise OSError(107, "Transport endpoint is not connected")
         if self.peer is not None and not self._buffer:
             self.peer.controller_half_closed()
 
@@ -386,6 +391,8 @@ class AccConn:
         if self.peer_closed:
             return
         self.peer_closed = True
+        if how != "fin":
+            self.t.kernel_reset = True
         self.loop.call_soon(self.t.feed_eof if how == "fin" else self.t.feed_reset)
 
 
@@ -668,7 +675,7 @@ class Net:
 
 # ---------------------------------------------------------------- differential self-test of FakeTransport against asyncio's socket transport
 def selftest():
-    """Runs eight scenarios over a real TCP loopback connection and over FakeTransport and compares the callback sequences."""
+    """Runs ten scenarios over a real TCP loopback connection and over FakeTransport and compares the callback sequences."""
     import socket
 
     class RecProto(asyncio.Protocol):
@@ -692,7 +699,7 @@ def selftest():
             self.log.append("lost:" + (type(exc).__name__ if exc else "None"))
 
     SCEN = ["peer-data-then-fin", "protocol-raises", "local-close-then-write", "peer-reset", "eof-keep-open", "stalled-fin-then-reset", "stalled-close-then-drain",
-            "stalled-fin-then-drain"]
+            "stalled-fin-then-drain", "reset-then-write-eof-before-poll", "fin-then-write-eof-before-poll"]
 
     async def real(scen):
         loop = asyncio.get_running_loop()
@@ -761,6 +768,19 @@ def selftest():
             await asyncio.sleep(0.02)
             log.append("closing:" + str(t.is_closing()))
             t.close()
+        elif scen.endswith("write-eof-before-poll"):
+            import time
+            if scen.startswith("reset"):
+                peer.setsockopt(socket.SOL_SOCKET, socket.SO_LINGER, struct.pack("ii", 1, 0))
+            peer.close()
+            time.sleep(0.05)          # the segment reaches the kernel; the loop does not run meanwhile
+            log.append("closing:" + str(t.is_closing()))
+            try:
+                t.write_eof()
+                log.append("write_eof:ok")
+            except Exception as e:  # noqa: BLE001
+                log.append("write_eof:" + type(e).__name__)
+            t.close()
         await asyncio.sleep(0.05)
         try:
             peer.close()
@@ -813,6 +833,19 @@ def selftest():
             t.feed_eof()
             await asyncio.sleep(0.02)
             log.append("closing:" + str(t.is_closing()))
+            t.close()
+        elif scen.endswith("write-eof-before-poll"):
+            if scen.startswith("reset"):
+                t.kernel_reset = True
+                loop.call_soon(t.feed_reset)
+            else:
+                loop.call_soon(t.feed_eof)
+            log.append("closing:" + str(t.is_closing()))
+            try:
+                t.write_eof()
+                log.append("write_eof:ok")
+            except Exception as e:  # noqa: BLE001
+                log.append("write_eof:" + type(e).__name__)
             t.close()
         await asyncio.sleep(0.05)
         return log
